@@ -142,6 +142,10 @@ def origin_rules(run, db):
 class FNorm(NormDomain):
     def call_ext(self, dotted, args, kwargs, node):
         last = dotted.rsplit('.', 1)[-1]
+        if dotted.startswith(('scipy.fft', 'numpy.fft')) and last in ('fftshift', 'ifftshift') and args and self.rat(args[0]) is not None:
+            # a shift permutes samples: elementwise algebra (and the sum the normalisation is about) does not see it; where the shifts
+            # sit relative to the transform is C13.origin's business (ORIGIN typestate)
+            return args[0]
         if dotted.startswith(('scipy.fft', 'numpy.fft')) and args and self.rat(args[0]) is not None:
             return self.func_atom(last, [args[0]], real=False)
         if dotted in ('builtins.abs', 'numpy.abs') and args and self.rat(args[0]) is not None:
@@ -386,13 +390,13 @@ def rms_rules(run, db):
         return osub(v, idx, node)
 
     def compare(op, a, b, node):
-        if domn.rat(a) is not None and domn.rat(a).key() == 'MASK':
-            return MaskSel()
+        if not isinstance(op, (ast.Is, ast.IsNot)) and domn.rat(a) is not None and domn.rat(a).key() == 'MASK':
+            return MaskSel()          # mask == 0, mask < 0.5 ...: a selection of samples (`mask is None` is a plain test: the mask is given)
         return ocmp(op, a, b, node)
 
     def store_subscript(target, idx, val, node):
         if domn.rat(target) is not None:
-            events.append(('store', domn.rat(target).key(), isinstance(idx, MaskSel), repr(val)))
+            itn.emit('c13ev', data=('store', domn.rat(target).key(), isinstance(idx, MaskSel), repr(val)))
             return True
         return ost(target, idx, val, node)
     domn.call_ext, domn.subscript, domn.compare, domn.store_subscript = call_ext, subscript, compare, store_subscript
@@ -400,10 +404,10 @@ def rms_rules(run, db):
     def summarise(fi_, b_):
         if fi_.name == 'rms':
             arg = b_.get(fi_.params[0])
-            events.append(('rms', domn.rat(arg).key() if domn.rat(arg) is not None else repr(arg)))
+            itn.emit('c13ev', data=('rms', domn.rat(arg).key() if domn.rat(arg) is not None else repr(arg)))
             return domn.func_atom('RMS', [arg]) if domn.rat(arg) is not None else Unknown('rms of a non-array')
         if fi_.name == 'synthesize_surface_from_psd':
-            return Tup([domn.sym('X'), domn.sym('Y'), domn.sym('Z')])
+            return Tup([domn.sym('X'), domn.sym('Y'), domn.mark_array(domn.sym('Z'))])          # Z: the synthesised height map, an ndarray
         if fi_.name == 'forward_ft_unit':
             return domn.sym('NU')
         return domn.sym('PSD_' + fi_.name)
@@ -426,6 +430,7 @@ def rms_rules(run, db):
     want = Rat(R_.atom('Z')) * Rat(R_.atom('TARGET')) / Rat(R_.func('RMS', [Rat(R_.atom('Z'))]))
     for p_ in rets:
         z = domn.rat(p_.value.items[2])
+        events = [e['data'] for e in p_.events if e['kind'] == 'c13ev']          # what happened on this path, in order
         order = [e[0] for e in events if e[0] == 'rms' or (e[0] == 'store' and e[1] == 'Z' and e[2])]
         okorder = 'store' in order and 'rms' in order and order.index('store') < order.index('rms')
         run.check(okorder, 'C13.rms', f.qual, 'order', 'mask -> measure rms -> scale -> apply', 'the RMS is not measured after masking and before scaling (events: %s)' % order, f.loc())
